@@ -15,9 +15,9 @@ import Verif.Model.Policy
     matchIPConstraint                               `matchIP`  (`constraint.Mask[i]` out of range = crash)
     matchEmailConstraint, matchURIConstraint        `matchEmail`, `matchURI`
     checkNameConstraints                            `checkName` (`checkExcluded`, `permLoop`)
-    constraints.New                                 `New`      (concatenation over the chain)
-    Engine.Validate / ValidateCertificate           `validate`
-    authority.init: intermediates ++ matching roots `chainFor`
+    constraints.New                                 `NewF`     (flat concatenation `New` + per-certificate engines)
+    Engine.Validate / ValidateCertificate           `validateF` (`validate` = the flat evaluation, all there was before 4a0d6e3)
+    authority.init: intermediates ++ issuing roots  `chainForSig` (`chainFor` = the key-id selection before 94a532b)
 
   External calls are input fields (DESIGN.md §4): `url.URL.Host`, `net.SplitHostPort`,
   `net.ParseIP` of a URI host (`Policy.Uri`); an IP address / network is its byte slice(s).
@@ -215,6 +215,32 @@ def validate (e : Engine) (n : Names) : Verdict :=
     | v => v
   | v => v
 
+/-! ### the engine after `fix:` 4a0d6e3 (per-certificate evaluation) -/
+
+/-- `constraints.Engine` with the `perCert` field -/
+structure EngineF where
+  flat : Level
+  perCert : List Level
+  deriving Repr, DecidableEq
+
+/-- `constraints.New(chain...)` as it is now: the flat lists as before; for a chain of more than
+    one certificate, one engine `New(crt)` per certificate that has name constraints, kept only
+    if there is more than one of them -/
+def NewF (chain : List Level) : EngineF :=
+  { flat := New chain,
+    perCert :=
+      if chain.length > 1 then
+        let constrained := (chain.map fun l => New [l]).filter (·.has)
+        if constrained.length > 1 then constrained else []
+      else [] }
+
+/-- `Engine.Validate` as it is now: with `perCert` set every per-certificate engine is asked in
+    chain order and the first refusal is returned; otherwise the flat lists are used -/
+def validateF (e : EngineF) (n : Names) : Verdict :=
+  if !e.flat.has then .allow
+  else if !e.perCert.isEmpty then firstBad (fun c => validate c n) e.perCert
+  else validate e.flat n
+
 /-! ### chain assembly (authority.go `init`) -/
 
 /-- what `init` looks at in a CA certificate -/
@@ -224,21 +250,38 @@ structure Cert where
   ski : Str        -- SubjectKeyId
   aki : Str        -- AuthorityKeyId
   nc : Level
+  /-- for a configured root: `last.CheckSignatureFrom(root) == nil` for the last intermediate
+      (external: computed by the harness with crypto/x509); unused for intermediates -/
+  signsLast : Bool := false
   deriving Repr, DecidableEq
 
-/-- the certificates handed to `constraints.New`: all intermediates, then every configured root
-    whose subject *and* key identifier equal the issuer fields of the last intermediate;
+/-- **historic** (before `fix:` 94a532b): all intermediates, then every configured root whose
+    subject *and* key identifier equal the issuer fields of the last intermediate;
     no intermediates: no engine (`none`). -/
 def chainFor (ints roots : List Cert) : Option (List Cert) :=
   match ints.getLast? with
   | none => none
   | some last => some (ints ++ roots.filter fun r => last.issuer == r.subject && last.aki == r.ski)
 
-/-- the authority's decision for a certificate's names -/
+/-- historic: the authority's decision with the key-identifier selection and the union engine -/
 def authorityValidate (ints roots : List Cert) (n : Names) : Verdict :=
   match chainFor ints roots with
   | none => .allow
   | some ch => validate (New (ch.map (·.nc))) n
+
+/-- the certificates handed to `constraints.New` now: all intermediates, then every configured
+    root whose subject equals the last intermediate's issuer and whose key verifies the last
+    intermediate's signature -/
+def chainForSig (ints roots : List Cert) : Option (List Cert) :=
+  match ints.getLast? with
+  | none => none
+  | some last => some (ints ++ roots.filter fun r => last.issuer == r.subject && r.signsLast)
+
+/-- the authority's decision for a certificate's names (current code) -/
+def authorityValidateF (ints roots : List Cert) (n : Names) : Verdict :=
+  match chainForSig ints roots with
+  | none => .allow
+  | some ch => validateF (NewF (ch.map (·.nc))) n
 
 /-! ### specification: RFC 5280 §6.1.4 (g), every certificate of the path on its own
 
@@ -313,7 +356,7 @@ def levelAccept (l : Level) (n : Names) : Bool :=
 /-- the names are acceptable iff they are acceptable to every certificate of the chain -/
 def specAccept (chain : List Level) (n : Names) : Bool := chain.all (levelAccept · n)
 
-/-! ### per-certificate engine (fix candidate for D8) -/
+/-! ### per-certificate evaluation, stated directly (what `validateF ∘ NewF` is proved equal to) -/
 
 /-- evaluate every certificate of the chain with its own engine, stop at the first refusal:
     `for _, crt := range chain { if err := New(crt).Validate(...); err != nil { return err } }` -/
